@@ -10,23 +10,18 @@ RULE = ('non-trivial = baked program with >= 2 steps touching a common object; d
         'number of objects, failing step index)')
 
 
-def oracle(prog, rg, out, qres):
-    fails, known = [], []
-    shape = {o['name']: (o['rows'], o['cols']) for o in prog['objects'] if o['t'] == 'p'}
-    d13_steps = [i for i, st in enumerate(prog['steps']) if st['op'] == 'fill' and 'p' in st['t'] and
-                 st['t']['r'] != {'rect': [list(range(shape[st['t']['p']][0])), list(range(shape[st['t']['p']][1]))]}]
+def against_ledger(prog, rg, out):
+    """the outcome of bake() against an eager ledger (the steps performed one by one through Container.* / Plate.*)"""
+    fails = []
     if rg.failed is not None:
         # the eager fold fails at step k: bake must fail too, with the same class
         if out[0] == 'ok':
             fails.append(f"eager execution fails at step {rg.failed[0]} ({rg.failed[1]}: {rg.failed[2]}) but bake succeeded")
         elif out[1] != rg.failed[1] and not (rg.failed[1] in ('ValueError', 'LinAlgError') and out[1] in ('ValueError', 'LinAlgError')):
             fails.append(f"eager execution raises {rg.failed[1]} at step {rg.failed[0]}, bake raised {out[1]}: {out[2]}")
-        return fails, known
+        return fails
     if out[0] != 'ok':
-        msg = f"every step is feasible when performed eagerly, but bake raised {out[1]}: {out[2]}"
-        if d13_steps:
-            return [], [('D13-slice-fill', 'recipe fill_to on part of a plate fills every well of the plate (bake fails where a well outside the slice cannot take the fill)')]
-        return [msg], known
+        return [f"every step is feasible when performed eagerly, but bake raised {out[1]}: {out[2]}"]
     final = rg.eager.history[-1] if rg.eager.history else rg.initial
     if set(out[1]) != set(final):
         fails.append(f"bake returned names {sorted(map(str, out[1]))}, declared and created names are {sorted(final)}")
@@ -36,11 +31,28 @@ def oracle(prog, rg, out, qres):
             continue
         diffs = dsl.cmp_obj(d, final[name], F(1, 10**8) * k, F(1, 10**9), f"object {name}")
         if diffs:
-            if d13_steps and any(st['t']['p'] == name for st in prog['steps'] if st['op'] == 'fill' and 'p' in st['t']):
-                known.append(('D13-slice-fill', 'recipe fill_to on part of a plate fills every well of the plate'))
-            else:
-                fails.append('bake differs from eager execution: ' + diffs[0])
-    return fails, known
+            fails.append('bake differs from eager execution: ' + diffs[0])
+    return fails
+
+
+def oracle(prog, rg, out, qres):
+    fails = against_ledger(prog, rg, out)
+    if not fails:
+        return [], []
+    # known finding D13: a recipe's fill_to on part of a plate fills every well of that plate.  The finding is exactly that
+    # behaviour: the outcome is attributed to it only if bake equals the eager execution in which each such step addresses the
+    # whole plate (so that wells, plates and containers downstream of the over-filled wells are accounted for, and nothing else is)
+    shape = {o['name']: (o['rows'], o['cols']) for o in prog['objects'] if o['t'] == 'p'}
+    whole = lambda n: {'rect': [list(range(shape[n][0])), list(range(shape[n][1]))]}
+    d13_steps = [i for i, st in enumerate(prog['steps']) if st['op'] == 'fill' and 'p' in st['t'] and st['t']['r'] != whole(st['t']['p'])]
+    if d13_steps:
+        import copy
+        p13 = copy.deepcopy(prog)
+        for i in d13_steps:
+            p13['steps'][i]['t']['r'] = whole(p13['steps'][i]['t']['p'])
+        if not against_ledger(prog, recipes.Replayed(p13), out):
+            return [], [('D13-slice-fill', 'recipe fill_to on part of a plate fills every well of the plate')]
+    return fails, []
 
 
 def nontrivial(prog, rg, out, qres):
